@@ -146,7 +146,7 @@ def make_pair(kind, seed):
     """document and identical twin, with an aux loader so that image data can be asked for"""
     docs = []
     for _ in range(2):
-        d, gen = c02.base_doc(kind, seed, dict(anyaxis=True))     # rotation axes need not be unit vectors
+        d, gen = c02.base_doc(kind, seed, dict(anyaxis=True, rig=True, tangents=True))     # rotation axes need not be unit vectors; lights and cameras under a scaled top-level node
         d.getFileData = lambda fname: b'bytes of ' + fname.encode()
         docs.append(d)
     # a document without <created>/<modified> gets the time of loading: give the twins the same instant
